@@ -119,6 +119,9 @@ def run(tier, out):
 
 def replay(path, out):
     obj = json.load(open(path))["replay"]
+    if str(obj.get("component", "")).startswith("WriteTask"):
+        from checks import k_writetask
+        return k_writetask.replay(path, out)
     wd = core.workdir("C05_replay")
     case = obj["case"]
     cases, results = e2e.run_scripts(wd, [case["acts"]], case.get("cfg", {"store": True}), tag="replay", final=(), vary=False)
